@@ -43,6 +43,7 @@ type FuncContract struct {
 	Decreases *Clause
 	Where     string
 	Implements []string
+	Like      []string
 	Opts      map[string]string
 	Used      bool
 }
@@ -180,6 +181,8 @@ func (cs *Contracts) LoadLines(pkg string, lines []string, wheres []string) erro
 			} else if len(fields) == 2 {
 				cur.Opts[fields[1]] = "true"
 			}
+		case "like":
+			cur.Like = append(cur.Like, rest)
 		case "implements":
 			cur.Implements = append(cur.Implements, rest)
 		case "requires", "ensures":
@@ -392,6 +395,37 @@ func (cs *Contracts) LoadSpecDir(dir string) error {
 		if err := cs.LoadSpecFile(e); err != nil {
 			return err
 		}
+	}
+	return nil
+}
+
+// ResolveLikes copies requires/ensures/modifies of the referenced blocks.
+func (cs *Contracts) ResolveLikes() error {
+	for _, k := range cs.Order {
+		c := cs.Funcs[k]
+		for _, l := range c.Like {
+			key := l
+			if !strings.Contains(key, "::") {
+				key = c.Pkg + "::" + l
+			}
+			o, ok := cs.Funcs[key]
+			if !ok {
+				return fmt.Errorf("%s: like %q: no such contract", c.Where, l)
+			}
+			c.Requires = append(append([]*Clause{}, o.Requires...), c.Requires...)
+			c.Ensures = append(append([]*Clause{}, o.Ensures...), c.Ensures...)
+			if o.HasMod {
+				c.HasMod = true
+				c.Modifies = append(c.Modifies, o.Modifies...)
+				c.ModAll = c.ModAll || o.ModAll
+			}
+			for k2, v := range o.Opts {
+				if _, ok := c.Opts[k2]; !ok {
+					c.Opts[k2] = v
+				}
+			}
+		}
+		c.Like = nil
 	}
 	return nil
 }
